@@ -193,6 +193,27 @@ def random_map_histories(rng, n, length):
     return out
 
 
+def directed_map_histories():
+    """a key array that is looked up, changed in place at depth 1 or 2, and looked up again: every lookup must see
+    the key's current contents (a hash remembered from before the change is stale)"""
+    lit = lambda t, txt=None: {"k": "lit", "v": t, **({"txt": txt} if txt else {})}
+    KV = {"k": "kvar"}
+    out = []
+    for look in ("in", "get", "del"):
+        # inner array j = [3] inside k = [j, 0]
+        for before, after in ((A(A(N(3)), N(0)), A(A(N(3), N(9)), N(0))),):
+            for stored in (before, after):
+                out.append([{"op": "newkj"}, {"op": "set", "m": "m", "key": lit(stored), "val": N(5)}, {"op": look, "m": "m", "key": KV},
+                            {"op": "mutj"}, {"op": look, "m": "m", "key": KV}, {"op": "count", "m": "m"}])
+                out.append([{"op": "newkj"}, {"op": "set", "m": "m", "key": lit(stored), "val": N(5)}, {"op": "set", "m": "n", "key": KV, "val": N(6)},
+                            {"op": "mutj"}, {"op": look, "m": "m", "key": KV}, {"op": look, "m": "n", "key": KV}, {"op": look, "m": "n", "key": lit(before)}])
+        # outer array k = [0] changed by pushBack
+        for stored in (A(N(0)), A(N(0), N(9))):
+            out.append([{"op": "newk", "elems": [N(0)]}, {"op": "set", "m": "m", "key": lit(stored), "val": N(5)}, {"op": look, "m": "m", "key": KV},
+                        {"op": "mutk"}, {"op": look, "m": "m", "key": KV}, {"op": "count", "m": "m"}])
+    return out
+
+
 def mc_cfg(name, depth, emit, captured=True, deep=True):
     cfg = """SPECIFICATION Spec
 CONSTANTS
@@ -291,6 +312,7 @@ def run(rep, tier, seed, replay):
         mcases = map_cases(hists, "t")
         nrand, ln = (2000, 10) if tier == "quick" else (30000, 14)
         mcases += map_cases(random_map_histories(rng, nrand, ln), "r")
+        mcases += map_cases(directed_map_histories(), "d")
         rep.exhaustive = True
     mev = vlib.run_driver("steps", mcases, wdir, kind="rel", timeout_s=20, tag="hm")
     mby = vlib.events_by_case(mev)
